@@ -338,6 +338,39 @@ def run(ctx):
                           required=f"appended, warned={want}, receiver scale unchanged")
         ctx.case(("near-scale", kind, g, off, g2, o2, nsrc))
         ctx.count("near-scale", "equal" if not want else "differs")
+    # the sample intervals of receiver and source may be of different time families (datetime us, hightime ys, bintime ticks): the
+    # TimingMismatchWarning is about the intervals being different durations, however small the difference and whichever family is coarser
+    import hightime as ht
+    import nitypes.bintime as bt
+    from fractions import Fraction
+    from nitypes.waveform import SampleIntervalMode as _SIM
+    half = {"dt": lambda d: dt.timedelta(microseconds=500000 + d), "ht": lambda d: ht.timedelta(microseconds=500000, yoctoseconds=d) if d >= 0 else ht.timedelta(microseconds=500000) - ht.timedelta(yoctoseconds=-d),
+            "bt": lambda d: bt.TimeDelta.from_ticks((1 << 63) + d)}
+    unit = {"dt": Fraction(1, 10**6), "ht": Fraction(1, 10**24), "bt": Fraction(1, 1 << 64)}
+    for kind in ("analog", "digital"):
+        for rf in ("dt", "ht", "bt"):
+            for sf in ("dt", "ht", "bt"):
+                for rd, sd in ((0, 0), (0, 1), (0, -1), (1, 0), (0, 1 << 20), (0, 10**9), (3, 3)):
+                    if {rf, sf} == {"bt", "ht"} and 0 < abs(rd - sd) < (1 << 20):
+                        continue    # bintime <-> hightime equality is decided on whole yoctoseconds (C03): sub-yoctosecond differences are not claimed
+                    for rmode, smode in (("R", "R"), ("R", "N"), ("N", "R")):
+                        def tim(mode, fam, d):
+                            iv = half[fam](d)
+                            return Timing.create_with_regular_interval(iv) if mode == "R" else Timing(_SIM.NONE)
+                        recv, src = mk_plain(kind, tim(rmode, rf, rd)), mk_plain(kind, tim(smode, sf, sd), 1)
+                        with _w.catch_warnings(record=True) as wl:
+                            _w.simplefilter("always")
+                            o = outcome(recv.append, src if (rd + sd) % 2 else [src])
+                        warned = any(type(x.message).__name__ == "TimingMismatchWarning" for x in wl)
+                        ri = None if rmode == "N" else Fraction(1, 2) + rd * unit[rf]
+                        si = None if smode == "N" else Fraction(1, 2) + sd * unit[sf]
+                        want = ri != si
+                        if o[0] != "ok" or warned != want or recv.sample_count != 3:
+                            ctx.violation(what="TimingMismatchWarning for intervals of different time families", kind=kind, receiver=f"{rmode}:{rf} 0.5s{rd:+d}u",
+                                          source=f"{smode}:{sf} 0.5s{sd:+d}u", observed=f"{o[0]} warned={warned} count={recv.sample_count}",
+                                          required=f"appended, warned={want} (the intervals are {'different' if want else 'the same'} durations)")
+                        ctx.case(("mixed-family-interval", kind, rf, sf, rd, sd, rmode, smode))
+                        ctx.count("mixed-family-interval", f"{rf}<-{sf}")
     # a Timing object shared with other waveforms (or simply kept by the caller) is never modified by an append
     for kind in ("analog", "complex", "digital"):
         for how in ("array", "waveform", "waveforms", "array-rejected"):
